@@ -63,6 +63,11 @@ CHECKS = {
     technique='runtime monitoring: the three real tree walkers under a logical step budget (wrapped os.walk with permuted order) on enumerated directory shapes x symlink sets vs an independent ancestor-stack exploration; real second file system (/dev/shm) for the one-file-system half',
     text='Every directory shape with <= 3 (quick) / 4 (thorough) directories and every set of <= 2 / 3 directory symlinks among all (location, target) pairs, with IGNORE on a link or above it, is walked by verify (lenient handler), the unregistered-Manifest scan and update: ManifestSymlinkLoop must be raised exactly when a non-ignored link leads back to an ancestor, nothing may exceed 4000 directory steps, and files behind other links must verify like ordinary files. With allow_xdev=False a linked-in /dev/shm directory or file must raise ManifestCrossDevice from every walker (also when the top-level Manifest is only being created), never when ignored or allowed.',
     note='Trusted: the exploration in vf/checks/c16.py (explore), os.stat identities. A stray file on another device may be reported as a stray mismatch instead of the cross-device error in verify mode (counted, not a violation). Wall-clock watchdogs only ever yield inconclusive.'),
+ 'C03': dict(
+    category='exploration', design='3 C03',
+    technique='runtime monitoring: histories of (edits; real update+save via library or CLI) from generated prior Manifest states, each completed round checked by an independent post-condition (reader + own walk + one-shot hashing) and a fresh verification; permuted os.walk order',
+    text='From a generated tree with a prior Manifest state (exact, stale, duplicates, ghost entries, stale chains, unregistered valid/invalid/undecodable sub-Manifests, split Manifests in one directory, compressed, or none at all) 1..3 rounds of edits + update + save are run with random hash sets, sort/force/compression options and whole-tree or sub-directory scope. After every round that completed without error the independent post-condition (every in-scope regular file covered exactly once with true size and exactly the requested digests, no vanished entries, every Manifest in use referenced with true size/digests) and a fresh verification must hold.',
+    note='Trusted: vf/model/update_post.py, vf/model/match.py. Nothing is claimed when update raised. Directories holding several Manifest-named files, and Manifests aliased through directory symlinks, are unconstrained (U14/U15). Known findings: value-equality list.remove in deduplication (asserted by an existing test, hence not fixable), stale chain above a sub-directory scope.'),
 }
 
 def main():
